@@ -400,7 +400,7 @@ fn run_case(lines: &[String], out: &mut Vec<String>) {
                     Err(m) => format!("panic {}", m),
                 }
             }
-            "build" => builder_probe(&t[1..]),
+            "build" => builder_probe(&t[2..]),
             "heap" => heap_probe(&t[1..]),
             _ => {
                 let s: usize = t[1].parse().unwrap();
